@@ -137,6 +137,11 @@ def binop(ex, op, a, b, st, ctx):
         if op == "Mult" and oa is not None and oa.kind == "list" and isinstance(b, int):
             return st.new_obj("list", "list", items=oa.items * b)
         raise Havoc("arithmetic on heap object")
+    # ---------------- a coefficient table scaled by a scalar (h * A): the table of the scaled entries
+    if op == "Mult" and (isinstance(a, TabVal) or isinstance(b, TabVal)):
+        tab_, sc = (a, b) if isinstance(a, TabVal) else (b, a)
+        if isinstance(sc, (int, Fraction, Poly)) and not isinstance(sc, bool):
+            return TabVal([[binop(ex, "Mult", sc, x, st, ctx) for x in row] for row in tab_.rows])
     # ---------------- vectors
     if isinstance(a, (LinComb, BlockVec)) or isinstance(b, (LinComb, BlockVec)):
         return _vec_binop(op, a, b)
